@@ -26,6 +26,19 @@ Scope decisions ("Corrections": what the statement does and does not demand)
    return: any exception or any result is fine; hangs are bounded by small inputs (and by libFuzzer -timeout in the
    fuzz shards).
  * Nesting is exercised up to depth 40 (Python recursion is the library's practical limit, far above that).
+ * "Never hang" is decided without a clock: Base.decode_item_header is counted (wrapped from outside at run time);
+   one decode() of n bytes may read at most 4n+64 item headers (a terminating decoder needs < n+2), more is reported
+   as decode-step-bound-exceeded - for reference-rejected bytes as well.
+
+Tasks: gen (Hypothesis, reference-first trees; every drawn tree is checked with its drawn receiver and once more with
+another receiver that allows it and the complementary length-byte assignment), mut (mutated/arbitrary bytes), and
+deterministic enumerations: matrix (format x count 0/1/many x 1/2/3 length bytes x receiver kind), floats (named
+boundary values and every exponent), boolbytes (all 256 payload bytes), boundary (payload lengths around 255/256 and
+65535/65536 for every format, each admissible number of length bytes), biglist (element counts 255/256, thorough:
+65535/65536), deep (every depth 1..40), fuzz (thorough: 16 atheris shards, vf/fuzz/fz_e5.py; skipped with a note
+if atheris cannot be imported).
+Buckets are root-cause keys (symptom + raising function or top-level format), never the receiver or the input;
+the two repaired defects keep the keys C01 uses (float-above-declared-limit, dynamic-decode-jis8).
 """
 
 from __future__ import annotations
@@ -321,6 +334,34 @@ def _above_old_limit(it):
     return False
 
 
+class _StepLimit(BaseException):
+    """Raised by the header counter; BaseException so that no `except Exception` can swallow it."""
+
+
+_STEPS = [0]
+
+
+def _install_step_counter():
+    """Bound the work of one decode() deterministically (no wall clock): every item costs the library at most two
+    header decodes (Dynamic peeks, then the concrete class reads) and every item is at least two bytes long, so a
+    terminating decoder needs fewer than len(data) + 2 header decodes. The counter is attached from outside, at run
+    time, to Base.decode_item_header (no subclass overrides it); 4 * len + 64 calls is the bound."""
+    from secsgem.secs.variables.base import Base
+
+    if getattr(Base.decode_item_header, "_vf_counted", False):
+        return
+    orig = Base.decode_item_header
+
+    def counted(self, data, text_pos=0):
+        _STEPS[0] -= 1
+        if _STEPS[0] < 0:
+            raise _StepLimit()
+        return orig(self, data, text_pos)
+
+    counted._vf_counted = True
+    Base.decode_item_header = counted
+
+
 def judge(recv, data, pre=b"", tail=b"", case=None):
     """Decide one (receiver, bytes) pair. Returns (verdict, Failure|None, ref_item|None, item_len).
 
@@ -341,10 +382,15 @@ def judge(recv, data, pre=b"", tail=b"", case=None):
         verdict = "not-allowed"
     full = pre + data + tail
     obj = build(recv)
+    _install_step_counter()
+    _STEPS[0] = 4 * len(full) + 64
+    hang = Failure("decode-step-bound-exceeded", case, f"more than {4 * len(full) + 64} item headers read for {len(full)} bytes", "raises or returns")
     if verdict != "checked":
         # any exception or any result is acceptable here; the call only has to come back
         try:
             obj.decode(full, len(pre))
+        except _StepLimit:
+            return verdict, hang, ref_item, n
         except Exception:  # noqa: BLE001 - by the statement every outcome but a hang is fine for these inputs
             pass
         return verdict, None, ref_item, n
@@ -353,6 +399,8 @@ def judge(recv, data, pre=b"", tail=b"", case=None):
     where = ref_item[0]  # buckets are root-cause keys: symptom + top format / raising function, never the receiver
     try:
         pos = obj.decode(full, len(pre))
+    except _StepLimit:
+        return verdict, hang, ref_item, n
     except Exception as exc:  # noqa: BLE001 - a valid, allowed item must decode: every exception is the finding
         msg = str(exc)
         if _above_old_limit(ref_item) and isinstance(exc, ValueError) and "Invalid value" in msg:
@@ -586,7 +634,10 @@ def chain_case(deep_max):
         k = draw(depths)
         recv, item = _draw_leaf_rv(draw, False)
         for i in range(k):
-            sibs = [draw_value(draw, recv)] if (i % 7 == 3 and draw(_BOOL)) else []
+            # siblings must stay cheap: a fresh value for a k-deep array receiver would branch exponentially
+            sibs = []
+            if i % 4 == 0 and draw(_BOOL):
+                sibs = [draw_value(draw, recv) if i == 0 else {"f": "L", "v": []}]
             recv, item = {"k": "array", "of": recv}, {"f": "L", "v": [item] + sibs}
         return recv, item
 
@@ -686,13 +737,13 @@ def plan(tier, seed):
     tasks.append(("biglist", {"ns": [255, 256] if quick else [255, 256, 65535, 65536]}))
     for f in gi.SCALARS:
         tasks.append(("boundary", {"fmts": [f]}))
-    n_gen, per = (12, 850) if quick else (16, 31250)  # examples; each gives 2 cases (see variants)
+    n_gen, per = (16, 700) if quick else (16, 31250)  # examples; each gives 2 cases (see variants)
     for i in range(n_gen):
         tasks.append(("gen", {"shard": i, "n": per}))
     if not quick:
         for i in range(16):
             tasks.append(("fuzz", {"shard": i, "runs": 400000}))
-    n_mut, per_m = (4, 2500) if quick else (16, 12500)
+    n_mut, per_m = (8, 1500) if quick else (16, 25000)
     for i in range(n_mut):
         tasks.append(("mut", {"shard": i, "n": per_m}))
     return tasks
